@@ -27,8 +27,9 @@ pub struct Hooks {
     /// Should writes be read back and compared?
     pub readback_enabled: fn() -> bool,
     /// What was persisted for `id` was read back; `equal` says whether it compared equal
-    /// to the value in memory, when that could be determined.
-    pub readback: fn(ty: &'static str, id: &dyn Debug, equal: Option<bool>),
+    /// to the value in memory, when that could be determined, `same_bytes` whether
+    /// persisting it again gives the bytes the value in memory persists to.
+    pub readback: fn(ty: &'static str, id: &dyn Debug, equal: Option<bool>, same_bytes: bool),
     /// A writer for the persisted form of `id` at `path` was opened.
     pub wrap_writer: fn(id: &dyn Debug, path: &Path, inner: Box<dyn Write>) -> Box<dyn Write>,
     /// A reader for the persisted form of `id` at `path` was opened.
@@ -87,9 +88,9 @@ pub fn readback_enabled() -> bool {
 }
 
 #[inline]
-pub fn readback(ty: &'static str, id: &dyn Debug, equal: Option<bool>) {
+pub fn readback(ty: &'static str, id: &dyn Debug, equal: Option<bool>, same_bytes: bool) {
     if let Some(h) = HOOKS.get() {
-        (h.readback)(ty, id, equal)
+        (h.readback)(ty, id, equal, same_bytes)
     }
 }
 
